@@ -5,3 +5,8 @@ try:
     GENERATORS.append(gen_thread)
 except ImportError:
     pass
+try:
+    from translate_frameuse import gen_frameuse
+    GENERATORS.append(gen_frameuse)
+except ImportError:
+    pass
